@@ -1,0 +1,5 @@
+//go:build !verif
+
+package service
+
+func verifYield(point string) {}
